@@ -1533,6 +1533,19 @@ impl Iterator for PathSegIter {
     }
 }
 
+
+/// Verification hooks: access to private helpers.
+#[cfg(kurbo_verif)]
+#[allow(missing_docs)]
+impl PathSeg {
+    pub fn verif_winding_inner(&self, p: Point) -> i32 {
+        self.winding_inner(p)
+    }
+    pub fn verif_tangents(&self) -> (Vec2, Vec2) {
+        self.tangents()
+    }
+}
+
 #[cfg(test)]
 mod tests {
     use crate::{Circle, DEFAULT_ACCURACY};
